@@ -172,6 +172,8 @@ int init_http_connection2(struct http_connection *connection, const struct http_
 	connection->parser_settings.on_url = on_url;
 
 	http_parser_init(&connection->parser, HTTP_REQUEST);
+	/* no handler instance exists before the request line has been accepted */
+	connection->parser.data = NULL;
 
 	struct buffered_reader *br = &connection->br;
 	br->this_ptr = reader->this_ptr;
